@@ -4,6 +4,7 @@ import (
 	"fmt"
 	"runtime"
 	"sort"
+	"strings"
 	"time"
 
 	"github.com/go-task/task/v3/zverif/vlab"
@@ -128,6 +129,12 @@ func c18Units(tier string) []*Unit {
 		sc := &vlab.Scenario{Name: "reader-diamond-dirs-dynvar", Opts: vlab.Options{SchedSetup: true}, Files: c09Configs()["diamond-dirs-dynvar"], Calls: []vlab.CallSpec{{Task: "show"}}}
 		es = append(es, entry{sc.Name, sc})
 	}
+	// one command with two writers (both ends of a pipeline, a background job): the command's
+	// wrapped writer is written from two goroutines at once
+	for _, mode := range []string{"group", "prefixed"} {
+		u := c17Direct(c17cfg{mode: mode, begin: mode == "group", end: mode == "group", threads: 2, pipe: true, small: true})
+		es = append(es, entry{"c17-direct-" + mode + "-two-writers-per-command", u.Sc})
+	}
 	sort.SliceStable(es, func(i, j int) bool { return es[i].name < es[j].name })
 	var us []*Unit
 	for _, e := range es {
@@ -135,7 +142,8 @@ func c18Units(tier string) []*Unit {
 		maxW := 6
 		dedicated := map[string]bool{"defer-same-task-parallel": true, "matrix-ref-parallel-deps": true, "dynvars-parallel": true,
 			"once-failing-two-callers": true, "c17-executor-group": true, "c17-executor-prefixed": true, "reader-sibling-includes": true, "reader-diamond-dirs-dynvar": true,
-			"shared-set-and-shopt-lists-parallel": true, "missing-tasks-resolved-in-parallel": true}
+			"shared-set-and-shopt-lists-parallel": true, "missing-tasks-resolved-in-parallel": true,
+			"c17-direct-group-two-writers-per-command": true, "c17-direct-prefixed-two-writers-per-command": true}
 		heavy := map[string]bool{"c01-twolevel-cancel": true, "c01-nested-call-in-dep-N1": true, "c07-fail-nested-N2": true}
 		switch {
 		case dedicated[e.name]:
@@ -150,7 +158,7 @@ func c18Units(tier string) []*Unit {
 		}
 		sc := e.sc
 		sc.Name = e.name
-		us = append(us, &Unit{Name: e.name, Sc: sc, Bound: bound, Prune: true, Check: c18Check, Weight: maxW, NoConfirm: true})
+		us = append(us, &Unit{Name: e.name, Sc: sc, Bound: bound, Prune: true, Check: c18Check, Weight: maxW, NoConfirm: true, Env: strings.HasPrefix(e.name, "c17-direct-")})
 	}
 	// Supplement (the property's own quantifier speaks of free-running schedules under varying
 	// GOMAXPROCS): the same bodies with real goroutines and real primitives under the race
